@@ -324,5 +324,9 @@ func (d Decimal) ToProtoDecimal() *dtpb.Decimal {
 
 // Round rounds a Decimal at the provided precision.
 func (d Decimal) Round(precision int32) Decimal {
+	if int64(precision) >= -int64(decimal.Decimal(d).Exponent()) {
+		// nothing to round away; rescaling to a huge precision would never finish
+		return d
+	}
 	return Decimal(decimal.Decimal(d).Round(precision))
 }
